@@ -45,6 +45,9 @@ type Profile struct {
 	IgnoreCancel int
 	// PLiteralFalse: percent of `enabled` conditions written as a literal false spelling.
 	PLiteralFalse int
+	// PStopFalse: percent of plugin steps (with a cancel signal) given a stop condition that is a literal
+	// false spelling: a condition that never fires.
+	PStopFalse int
 	// ClosedOutput: add a step that waits for a slow step and an output fed by its closed.result
 	// (produced when the caller cancels while it waits).
 	ClosedOutput bool
@@ -324,6 +327,9 @@ func (g *genCtx) genPluginStep(id string) *Step {
 			// (it used to disable the step: defect D21)
 			s.Enabled = Lit(rapid.SampledFrom([]string{"true", "yes", "on", "y", "1", "enable", "enabled", "True", "ON"}).Draw(g.t, "true_spelling"))
 		}
+	}
+	if s.StopIf == nil && !s.Simple && !s.NoSignal && g.pct(g.prof.PStopFalse, "stop_if_literal_false") {
+		s.StopIf = Lit(rapid.SampledFrom([]string{"false", "no", "off", "False"}).Draw(g.t, "stop_false_spelling"))
 	}
 	if g.prof.Tags && len(g.prior) > 0 {
 		if g.pct(50, "tag_o") {
